@@ -510,6 +510,7 @@ bool OPNMIDIplay::realTime_NoteOn(uint8_t channel, uint8_t note, uint8_t velocit
         MIDIchannel::notes_iterator i = midiChan.ensure_find_or_create_activenote(note);
         MIDIchannel::NoteInfo &dummy = i->value;
         dummy.isBlank = true;
+        dummy.isPercussion = isPercussion; // the record may be new (nothing else sets it) and the channel allocator reads it
         dummy.isOnExtendedLifeTime = false;
         dummy.ttl = 0;
         dummy.ains = NULL;
